@@ -74,8 +74,8 @@ def _fail(ctx, m, even, msg, wit, repro):
 def check_mul(ctx, dom, cfp, obj, P, k, cls, key, even, tag, deep=False):
     cv, p = dom.curve, dom.curve.p
     E = cv.mul(k, P)
-    ctx.case(cls, key=key)
     s = points.src(obj)
+    ctx.case(cls, key=key, sample=dict(curve=tag, p=p, a=cv.a, b=cv.b, point=s, k=k, expected=E) if ctx.want(cls) else None)
     gen = isinstance(obj, PointJacobi) and obj.__dict__.get("_PointJacobi__generator")
     if gen:
         s = s[:-1] + ", generator=True)"
@@ -97,8 +97,8 @@ def check_mul(ctx, dom, cfp, obj, P, k, cls, key, even, tag, deep=False):
 def check_muladd(ctx, dom, cfp, A, P, a, B, Q, b, cls, key, even, tag):
     cv, p = dom.curve, dom.curve.p
     E = cv.add(cv.mul(a, P), cv.mul(b, Q))
-    ctx.case(cls, key=key)
     sa, sb = points.src(A), points.src(B)
+    ctx.case(cls, key=key, sample=dict(curve=tag, p=p, A=sa, a=a, B=sb, b=b, expected=E) if ctx.want(cls) else None)
     for o, nm in ((A, "sa"), (B, "sb")):
         if isinstance(o, PointJacobi) and o.__dict__.get("_PointJacobi__generator"):
             if nm == "sa":
